@@ -159,6 +159,10 @@ func (d *duplexHTTPCall) Read(data []byte) (int, error) {
 	}
 	verifYield("read.body")
 	n, err := d.response.Body.Read(data)
+	if err != nil && !errors.Is(err, io.EOF) {
+		// If the context ended while we were blocked, that's the cause.
+		err = wrapIfContextDone(d.ctx, err)
+	}
 	return n, wrapIfRSTError(err)
 }
 
@@ -175,7 +179,7 @@ func (d *duplexHTTPCall) CloseRead() error {
 	if err == nil {
 		err = closeErr
 	}
-	return wrapIfRSTError(err)
+	return wrapIfRSTError(wrapIfContextDone(d.ctx, err))
 }
 
 // ResponseStatusCode is the response's HTTP status code.
